@@ -74,6 +74,7 @@ type c11Item struct {
 	formula  string
 	modelTok string // transcript token, "" = not modelled
 	isTime   bool   // time / duration: default style differs by design
+	isClock  bool   // time.Time
 	richBad  bool
 	rich     []xl.RichTextRun
 	isRich   bool
@@ -155,6 +156,7 @@ func c11parseVal(tok string) (v interface{}, model string, it c11Item, err error
 			return nil, "", it, fmt.Errorf("bad t item")
 		}
 		it.isTime = true
+		it.isClock = true
 		tv := time.Unix(sec, ns).UTC()
 		// what a time.Time is stored as (timeToExcelTime + FormatFloat, or the RFC 3339 text): external to the stream
 		// model (C19's territory); obtained through the in-memory API on a scratch workbook
@@ -1186,6 +1188,20 @@ func (c *c11Case) compare() {
 					c.fail("cell:formula-cached", fmt.Sprintf("%s: Cell{Formula: %s, Value: %T} reads back %s from the stream-built workbook, expected %s", name, c11short(cc.it.formula), cc.it.inner, c11short(got), c11short(want)), 0)
 				} else if gotM != want {
 					c.fail("cell:formula-cached:in-memory", fmt.Sprintf("%s: SetCellValue(%T) + SetCellFormula(%s) reads back %s from the in-memory workbook, the stream-built one reads back %s", name, cc.it.inner, c11short(cc.it.formula), c11short(gotM), c11short(want)), 0)
+				}
+			}
+		}
+		// a time.Time stored as a number in a cell without any style of its own gets the NumFmt 22 style from SetRow
+		if cc != nil && cc.it.isClock && cc.it.style <= 0 && cc.rowStyle == 0 {
+			colSt := 0
+			for _, o := range c.colOps {
+				if !o.isW && o.lo <= p.c && p.c <= o.hi {
+					colSt = o.st
+				}
+			}
+			if _, e := strconv.ParseFloat(sv, 64); e == nil && colSt == 0 {
+				if st, e := sg.GetStyle(ss); e != nil || st == nil || st.NumFmt != 22 {
+					c.fail("cell:time-default-style", fmt.Sprintf("%s: a time.Time without a style was written with style %d, which is not the NumFmt 22 style", name, ss), 0)
 				}
 			}
 		}
